@@ -2,7 +2,9 @@
 From Coq Require Import List NArith Bool.
 From Frugal Require Import Bytes Wire Skip Values Desc Spec Encode Decode Checks Tags State Bitset Alloc DescMap Conc LegacyDefs.
 From Frugal.gen Require Import Params.
-From Frugal.proofs Require Import GenLegacy StateProofs.
+From Coq Require Import ZArith.
+From Frugal Require Import EnvParse.
+From Frugal.proofs Require Import GenLegacy StateProofs EnvParseProofs.
 From Frugal.props Require Import Examples.
 Import ListNotations.
 
@@ -19,6 +21,39 @@ Print Assumptions C17_inert.
 Theorem C17_returns : forall f a,
   legacy_ret f a = match f with LSetMaxInlineDepth | LSetMaxInlineILSize => a | _ => 0%N end.
 Proof. exact (legacy_ret_values legacy_ok_holds). Qed.
+
+(* The FRUGAL_MAX_INLINE_* environment variables (EnvParse.v: parseOrDefault over strconv.ParseUint(s, 0, 64)).
+   "Holding valid values" = the package initialiser does not panic.  An accepted variable is either
+   empty (default) or denotes a number above the minimum and below 2^63; every decimal numeral in that
+   range is accepted with its value (so the accepted set is not a curiosity of the model); the codec
+   model [api_step] has no parameter through which the parsed numbers could flow (C17_inert is stated
+   for every history, and [legacy_ok] says nothing outside internal/opts reads its variables or the
+   environment), hence every accepted environment gives the results of the empty one. *)
+Theorem C17_env_default_iff : forall s min, parse_or_default s min = EnvDefault <-> s = [].
+Proof. exact env_default_iff. Qed.
+Print Assumptions C17_env_default_iff.
+
+Theorem C17_env_value_sound : forall s min v, (0 <= min)%Z -> parse_or_default s min = EnvValue v ->
+  exists n, parse_uint0 s = POk n /\ v = Z.of_N n /\ (min < v < 9223372036854775808)%Z.
+Proof. exact env_value_sound. Qed.
+Print Assumptions C17_env_value_sound.
+
+Theorem C17_env_decimal_accepted : forall ds min, ds <> [] -> all_digits ds = true -> hd 0%N ds <> 48%N ->
+  (0 <= min)%Z -> (min < Z.of_N (dec_val ds) < 9223372036854775808)%Z ->
+  parse_or_default ds min = EnvValue (Z.of_N (dec_val ds)).
+Proof. exact env_decimal_accepted. Qed.
+Print Assumptions C17_env_decimal_accepted.
+
+(* non-vacuity and the spellings of the correspondence pool: "7", "0x7fffffff", "0b11", "1_000", "017",
+   2^63-1 accepted; 2^63, "1" (not above the minimum), "08", "1__0", "0x" rejected *)
+Example C17_env_examples :
+  map (fun s => parse_or_default s 1)
+    [[55]; [48;120;55;102;102;102;102;102;102;102]; [48;98;49;49]; [49;95;48;48;48]; [48;49;55];
+     [57;50;50;51;51;55;50;48;51;54;56;53;52;55;55;53;56;48;55];
+     [57;50;50;51;51;55;50;48;51;54;56;53;52;55;55;53;56;48;56]; [49]; [48;56]; [49;95;95;48]; [48;120]]%N
+  = [EnvValue 7; EnvValue 2147483647; EnvValue 3; EnvValue 1000; EnvValue 15; EnvValue 9223372036854775807;
+     EnvPanic; EnvPanic; EnvPanic; EnvPanic; EnvPanic]%Z.
+Proof. vm_compute. reflexivity. Qed.
 
 (* what the translator read from frugal.go / options.go / debug / internal/opts on this run: the
    bodies are the expected no-ops, nothing of internal/opts is used by the codec, the environment is
